@@ -1,8 +1,12 @@
 package checks
 
 import (
+	"encoding/json"
 	"fmt"
+	"os"
+	"path/filepath"
 	"runtime"
+	"sort"
 	"strconv"
 	"strings"
 	"sync"
@@ -197,4 +201,24 @@ func enumSeq(r *kit.Rec, check, prefix string, alpha []string, fullLen, viableLe
 		}()
 	}
 	wg.Wait()
+}
+
+// corpusValCases loads saved (schema, document) cases of a property from harness/corpus/<id>/:
+// witnesses of repaired findings and shrunk past failures, replayed first in every run.
+func corpusValCases(prop string) []valCase {
+	dir := filepath.Join(kit.VerifDir(), "harness", "corpus", prop)
+	files, _ := filepath.Glob(filepath.Join(dir, "*.json"))
+	sort.Strings(files)
+	var out []valCase
+	for _, f := range files {
+		b, err := os.ReadFile(f)
+		if err != nil {
+			continue
+		}
+		var c valCase
+		if json.Unmarshal(b, &c) == nil && c.Schema != "" {
+			out = append(out, c)
+		}
+	}
+	return out
 }
